@@ -10,6 +10,7 @@ import (
 	"bytes"
 	"encoding/binary"
 	"fmt"
+	"os"
 	"regexp"
 	"strconv"
 	"strings"
@@ -319,11 +320,35 @@ func main() {
 			}
 		}
 	}
+	// more than 16 wavefronts waiting at barriers on one CU (the scheduler's barrier buffer holds 16)
+	for _, n := range []string{"k1_lds_barrier", "k3_two_barriers", "k6_early_exit_before_barrier", "k7_late_exit_without_barrier"} {
+		for _, g := range []geo{{1024, 2}, {512, 3}} {
+			if !r.Thorough() && (g.WGSize != 1024 || n == "k1_lds_barrier") {
+				continue
+			}
+			b := 0
+			if r.Thorough() {
+				b = 1
+			}
+			o := cuworld.TimingOpts{Scoreboard: false, Resident: g.NumWG, Delays: []int{9, 60}}
+			scs = append(scs, harness.Scenario{Name: fmt.Sprintf("%s/wg%dx%d/many-waiting/resident%d", n, g.WGSize, g.NumWG, g.NumWG), Bound: b, Body: body(ks[n], g, o)})
+		}
+	}
 	r.Assume = []string{
 		"memory answers arrive in request order on each of the three memory paths (the shader array places a reorder buffer on each; that is property C15); latencies are explored",
 		"1-D work-groups whose size is a power of two and a multiple of 64",
 		"instruction issue/completion times are the CU's own 'inst' tracing tasks; values and port traffic are observed independently",
 		"kernels are race-free (communication only across barriers)",
+	}
+	if only := os.Getenv("C14_ONLY"); only != "" { // development aid: restrict to matching scenarios
+		var f []harness.Scenario
+		for _, sc := range scs {
+			if strings.Contains(sc.Name, only) {
+				sc.Bound, _ = strconv.Atoi(os.Getenv("C14_BOUND"))
+				f = append(f, sc)
+			}
+		}
+		scs = f
 	}
 	r.Quiet = true
 	r.Cov["emu_reference_runs"] = emuRuns
